@@ -1,4 +1,5 @@
 """C04 — committed contents follow upsert/delete/rollback semantics (partial: visibility skeleton)."""
+import re
 from sa import names as N
 from sa.prog import Site, Slice, TERM, callee_of, op_local, op_place
 from sa.rules.common import writer_entry_points, entry_ancestors, is_test_or_bench, publish_sites
@@ -174,7 +175,9 @@ def r04c(ctx, P):
             cal = callee_of(t)
             if cal == MATCHES and not p.startswith("searchlite_core::api::reader::QueryEvaluator"):
                 inst.append((f, b, t, "matches"))
-            elif cal == GET_DOC:
+            elif cal == GET_DOC or (cal in P.fns and P.fns[cal].crate == "searchlite_core" and cal != GET_DOC and
+                                    f.file.endswith("index/mod.rs") and GET_DOC in P.reach(cal) and P.fns[cal].vis != "Public"):
+                # the read-back of a stored document in compaction: directly, or through a private helper of index/mod.rs
                 root = f
                 while root.kind == "closure" and root.parent and P.fn(root.parent):
                     root = P.fn(root.parent)
@@ -183,7 +186,15 @@ def r04c(ctx, P):
     for f, b, t, what in inst:
         ctx.saw(f)
         use = Site(f, b)
-        g = deleted_guard(P, f, use, t["args"][1])
+        g = deleted_guard(P, f, use, t["args"][1]) if len(t["args"]) > 1 else None
+        if g is None and f.kind == "closure":
+            # iterator form: `.filter(|id| !seg.is_deleted(id)).map(|id| read(id))` — the closure is the map stage of a chain that a
+            # not-deleted filter precedes
+            from sa.rules.common import adapter_calls_with_closure, chain_filters, filter_drops_deleted
+            for (par, ab, at) in adapter_calls_with_closure(P, f):
+                for (kind, fb, clos) in chain_filters(P, par, at["args"][0]):
+                    if kind == "filter" and any(filter_drops_deleted(P, h) for h in clos):
+                        g = Site(par, fb)
         if g is None:
             # two-phase shape: the document comes out of a local list that is only filled with is_deleted-checked documents
             g = _prefiltered_list_guard(P, f, t["args"][1])
@@ -207,7 +218,7 @@ def r04d(ctx, P):
     ctx.rule(rid, "GUARD (upsert/delete fold): in IndexWriter::commit the match on a queued operation has an Add arm that removes the "
                   "id from the live-document map (tombstoning the previous version) and inserts into the new-document map, and a "
                   "Delete arm that removes the id from both maps; both arms record a tombstone under the `Some(previous address)` test")
-    f = P.fn(N.W + "::commit")
+    f = P.inlined(N.W + "::commit")
     if not ctx.anchor(rid, f, "IndexWriter::commit"):
         return
     adt = P.adts.get("searchlite_core::api::writer::PendingOp")
@@ -228,25 +239,46 @@ def r04d(ctx, P):
     if not ctx.anchor(rid, sw, "match on PendingOp in commit"):
         return
     b, t = sw
-    sl = Slice(f)
+    sl = Slice(f, through_all_calls=True)
+
+    def recv_ty(g, tt):
+        l = op_local(tt["args"][0]) if tt["args"] else None
+        return g.local_ty(l) if l is not None else ""
+
+    def effects_of(g, blocks_):
+        """(callee, receiver type) of the calls in these blocks, looking into closures that are invoked there"""
+        out = []
+        for rb in blocks_:
+            tt = g.blocks[rb]["term"]
+            if tt["k"] != "call":
+                continue
+            cal = callee_of(tt)
+            out.append((cal, recv_ty(g, tt)))
+            if cal in P.fns and P.fns[cal].kind == "closure":
+                h = P.fns[cal]
+                out += effects_of(h, sorted(h.reachable()))
+            elif cal.endswith(("FnMut::call_mut", "FnOnce::call_once", "Fn::call")) and tt["args"]:
+                for x in Slice(g, through_all_calls=True).sources(tt["args"][0]):
+                    if x[0] == "agg" and x[3].get("closure") and P.fn(x[3]["closure"]) is not None:
+                        h = P.fn(x[3]["closure"])
+                        out += effects_of(h, sorted(h.reachable()))
+        return out
     for v, tg in zip(t["values"], t["targets"]):
         name = names[v]
-        region = f.dominated_region(tg)
-        calls = []
-        for rb in region:
-            tt = f.blocks[rb]["term"]
-            if tt["k"] == "call":
-                calls.append((callee_of(tt), sl_names(f, sl, tt["args"][0]) if tt["args"] else set()))
-        rm_live = any(c.endswith("HashMap::<K, V, S, A>::remove") and "live_docs" in nm for c, nm in calls)
-        ins_new = any(c.endswith("BTreeMap::<K, V, A>::insert") and "pending_new" in nm for c, nm in calls)
-        rm_new = any(c.endswith("BTreeMap::<K, V, A>::remove") and "pending_new" in nm for c, nm in calls)
-        tomb = any(c.endswith("Vec::<T, A>::push") for c, nm in calls) and any(c.endswith("::entry") and "tombstones" in nm for c, nm in calls)
+        region = f.dominated_region(tg) | {tg}
+        calls = effects_of(f, sorted(region))
+        # the maps are recognised by their types: id -> address (live), id -> document (new segment), segment -> doc ids (tombstones)
+        rm_live = any(re.search(r"HashMap::<K, V, S(, A)?>::remove$", c) and "DocAddress" in ty for c, ty in calls)
+        ins_new = any(re.search(r"BTreeMap::<K, V(, A)?>::insert$", c) and "Document" in ty for c, ty in calls)
+        rm_new = any(re.search(r"BTreeMap::<K, V(, A)?>::remove$", c) and "Document" in ty for c, ty in calls)
+        tomb = any(c.endswith("Vec::<T, A>::push") and ("Vec<u32>" in ty or "DocId" in ty) for c, ty in calls) and \
+            any(c.endswith("::entry") and "Vec<u32>" in ty for c, ty in calls)
         if name == "Add":
             ok = rm_live and ins_new and tomb
-            what = "Add: live_docs.remove=%s pending_new.insert=%s tombstone=%s" % (rm_live, ins_new, tomb)
+            what = "Add: live map remove=%s new-document map insert=%s tombstone=%s" % (rm_live, ins_new, tomb)
         else:
             ok = rm_live and rm_new and tomb
-            what = "Delete: live_docs.remove=%s pending_new.remove=%s tombstone=%s" % (rm_live, rm_new, tomb)
+            what = "Delete: live map remove=%s new-document map remove=%s tombstone=%s" % (rm_live, rm_new, tomb)
         ctx.ob(rid, "%s:commit:fold:%s" % (rid, name), ok,
                "the %s arm of the commit fold keeps one live copy per id (%s)" % (name, what) if ok else
                "the %s arm of the commit fold does not maintain 'one live copy per id': %s" % (name, what), Site(f, b).loc())
